@@ -85,6 +85,31 @@ pub fn oracle(st: &State, hist: &[RoundRec], max_samples: usize) -> Vec<(String,
             }
         }
     }
+    // the registered flows: the sample limit holds for every hop of every flow, and a flow that
+    // was given every round must show exactly what the default flow shows (same reference)
+    let flows: Vec<trippy_core::FlowId> = mc::catch(|| st.flows().iter().map(|(_, id)| *id).collect()).unwrap_or_default();
+    for id in flows {
+        let fh = match mc::catch(|| (st.round_count(id), st.hops_for_flow(id).to_vec())) {
+            Ok(x) => x,
+            Err(p) => {
+                bad.push((format!("{}:flow", p.key()), p.message));
+                continue;
+            }
+        };
+        let (rounds, fhops) = fh;
+        for h in &fhops {
+            if h.samples().len() > max_samples {
+                bad.push(("stat:samples-exceed-limit:flow".into(), format!("flow {} hop ttl {}: {} samples kept, limit {max_samples}", id.0, h.ttl(), h.samples().len())));
+            }
+            if rounds == hist.len() && h.ttl() != 0 {
+                if let Some(r) = reference.hops.get(&h.ttl()) {
+                    for (k, d) in refstate::compare_hop(h, r, max_samples) {
+                        bad.push((format!("stat:{k}:flow"), format!("flow {} (given all {rounds} rounds) hop ttl {}: {d}", id.0, h.ttl())));
+                    }
+                }
+            }
+        }
+    }
     // every probed hop within the exposed range must be there
     for (ttl, r) in &reference.hops {
         if reference.highest_ttl > 0 && *ttl >= reference.lowest_ttl && *ttl <= reference.highest_ttl && !hops.iter().any(|h| h.ttl() == *ttl) {
@@ -390,7 +415,7 @@ pub fn run(args: &Args) -> i32 {
     rep.set("long_history_oracle_evaluations", json!(long_evals));
     rep.set("real_strategy_rounds_fed_to_oracle", json!(real_rounds));
     rep.set("reference_model_fixture_comparisons", json!(fixture_cmps));
-    rep.set("rule", json!(format!("state = real trippy_core::State, transition = State::update_from_round on a synthetic round; alphabet: 2 hops x 7 outcomes (Complete with rtt 0/1ms/3ms/1.5s, 2 addresses, tos; Awaited; Failed) + re-issue/short/long fillers = 54 shapes (3 hops: 348), largest_ttl by the strategy's contract; ALL histories to depth {depth} for first_ttl {{1,2,250}} x max_samples {{0,1,2,256}}, de-duplicated on (depth, all getter results); oracle after EVERY round = independent recomputation from the list of rounds (validated against the repository's 9 scenario files: {fixture_cmps} expected values reproduced) + the listed inequalities. Long histories: order-3 de Bruijn sequences over 12 shapes, {long_n} rounds, checked every 50. Real rounds: 14 cells x 5 topologies x 6 rounds from the real strategy")));
+    rep.set("rule", json!(format!("state = real trippy_core::State, transition = State::update_from_round on a synthetic round; alphabet: 2 hops x 7 outcomes (Complete with rtt 0/1ms/3ms/1.5s, 2 addresses, tos; Awaited; Failed) + re-issue/short/long fillers = 54 shapes (3 hops: 348), largest_ttl by the strategy's contract; ALL histories to depth {depth} for first_ttl {{1,2,250}} x max_samples {{0,1,2,256}}, de-duplicated on (depth, all getter results); oracle after EVERY round = independent recomputation from the list of rounds (default flow, and every registered flow that was given every round; the sample limit for every hop of every flow) (validated against the repository's 9 scenario files: {fixture_cmps} expected values reproduced) + the listed inequalities. Long histories: order-3 de Bruijn sequences over 12 shapes, {long_n} rounds, checked every 50. Real rounds: 14 cells x 5 topologies x 6 rounds from the real strategy")));
     for s in samples {
         rep.sample(s);
     }
